@@ -20,7 +20,7 @@ LEVEL = "model_checking"
 def run(ctx):
     q = ctx.quick()
     sims = [("Sim_auth.cfg", 200 if q else 1200, 20), ("Sim_node.cfg", 100 if q else 600, 12)]
-    sp, n = lib.generate(ctx, ["node", "failover", "file", "auth", "deep", "dup"], sims, ["NegCtl_IndexAgreement", "NegCtl_RestoreFidelity"])
+    sp, n = lib.generate(ctx, ["node", "failover", "file", "auth", "deep", "dup", "chain"], sims, ["NegCtl_IndexAgreement", "NegCtl_RestoreFidelity"])
     r = lib.replay(ctx, sp, n)
     lib.need(r, ["AddNode", "PromoteWriter", "RegisterFile", "UpdateFile", "DeleteFile", "BatchFileOps", "CreateToken", "UpdateToken",
                  "RotateToken", "DeleteToken", "CreateOrg", "CreateTeam", "CreateRole", "CreateMPerm", "AddTokenToTeam", "DeleteOrg",
